@@ -86,8 +86,9 @@ inductive Val
   | str (s : Str) (repr : Str)
   /-- `bytes` or a subclass (`XmlHexBinary`, `XmlBase64Binary`); `repr` is `b'…'` -/
   | bytes (cls : ClsRef) (repr : Str)
-  /-- `xml.etree.ElementTree.QName`; `text` is `value.text` -/
-  | qname (text : Str)
+  /-- `xml.etree.ElementTree.QName`; `text` is `value.text`, `repr` is
+      `repr(value.text)` (used only by the patched serializer) -/
+  | qname (text : Str) (repr : Str)
   /-- a value of class `cls` whose `repr` is the constructor call
       `callee(args)` (`Decimal('1.5')`, `XmlDate(2000, 1, 2)`); `n` is its
       numeric value when it takes part in numeric `==` (Decimal) -/
@@ -150,9 +151,9 @@ def leafEq (a b : Val) : Bool :=
     | .none, .none => true
     | .str s _, .str t _ => s == t
     -- `QName.__eq__` compares `.text` with a plain string too (both directions)
-    | .str s _, .qname t => s == t
-    | .qname s, .str t _ => s == t
-    | .qname s, .qname t => s == t
+    | .str s _, .qname t _ => s == t
+    | .qname s _, .str t _ => s == t
+    | .qname s _, .qname t _ => s == t
     | .bytes _ r, .bytes _ r' => r == r'
     | .enum c m, .enum c' m' => decide (c = c') && m == m'
     | .opaque c cal ar _, .opaque c' cal' ar' _ => decide (c = c') && cal == cal' && ar == ar'
@@ -206,6 +207,21 @@ end
 
 /-! ## The emitted expression -/
 
+/-- Which of the three proposed one-line repairs are applied (NOTES-C18.md).
+`Cfg.asIs` is the code under test; `Cfg.patched` is used only to show that the
+repairs are sufficient. -/
+structure Cfg where
+  /-- `repr_array` writes non-empty tuples as `( …, )` -/
+  tupleFix : Bool
+  /-- enum members are written `Qual.Name.MEMBER` -/
+  enumFix : Bool
+  /-- `literal_value` writes `QName({text!r})` -/
+  qnameFix : Bool
+deriving DecidableEq, Repr
+
+def Cfg.asIs : Cfg := ⟨false, false, false⟩
+def Cfg.patched : Cfg := ⟨true, true, true⟩
+
 inductive PyExpr
   /-- a literal token `text` that evaluates to `v`; `ty` is `type(obj)` of the
       object it was produced from -/
@@ -217,12 +233,18 @@ inductive PyExpr
   /-- `float("inf")` -/
   | floatCall (n : NumV) (arg : Str)
   /-- `QName("raw")` — `raw` pasted between the quotes unescaped -/
-  | qnameCall (raw : Str)
+  | qnameCall (raw : Str) (repr : Str)
   | opaqueCall (cls : ClsRef) (callee : List Str) (args : Str) (n : Option NumV)
   /-- `str(member)`: `ClassName.MEMBER`, with `__name__`, not `__qualname__` -/
   | enumRef (cls : ClsRef) (member : Str)
   /-- `Qual.Name(\n kw=…,\n …)` -/
   | call (cls : ClsRef) (kwargs : List (Str × PyExpr))
+
+/-- the name of the callable in `float("…")` / `QName("…")`, read off the
+format the code uses -/
+def calleeOf (pre : Str) : Str := pre.takeWhile (· ≠ '(')
+def floatCallee : Str := calleeOf Tables.floatLitPre
+def qnameCallee : Str := calleeOf Tables.qnameLitPre
 
 def spaces (n : Nat) : Str := (List.replicate n Tables.pycodeSpaces).flatten
 
@@ -234,31 +256,35 @@ def dotted : List Str → Str
 def lastName (p : List Str) : Str := p.getLastD []
 
 /-- the name path by which `str(member)` refers to the enum class -/
-def enumNames (c : ClsRef) : List Str := [lastName c.path]
+def enumNames (cfg : Cfg) (c : ClsRef) : List Str := if cfg.enumFix then c.path else [lastName c.path]
 
 mutual
 /-- the source text, exactly as the generator functions yield it -/
-def PyExpr.text (level : Nat) : PyExpr → Str
+def PyExpr.text (cfg : Cfg) (level : Nat) : PyExpr → Str
   | .lit _ t _ => t
   | .arr isT [] => if isT then cs!"()" else cs!"[]"
-  | .arr _ (x :: xs) => cs!"[\n" ++ textItems (level + 1) (x :: xs) ++ spaces level ++ cs!"]"
+  | .arr isT (x :: xs) =>
+    if cfg.tupleFix && isT then cs!"(\n" ++ textItems cfg (level + 1) (x :: xs) ++ spaces level ++ cs!")"
+    else cs!"[\n" ++ textItems cfg (level + 1) (x :: xs) ++ spaces level ++ cs!"]"
   | .dict [] => cs!"{}"
-  | .dict (p :: ps) => cs!"{\n" ++ textKV (level + 1) (p :: ps) ++ spaces level ++ cs!"}"
+  | .dict (p :: ps) => cs!"{\n" ++ textKV cfg (level + 1) (p :: ps) ++ spaces level ++ cs!"}"
   | .floatCall _ a => Tables.floatLitPre ++ a ++ Tables.floatLitPost
-  | .qnameCall raw => Tables.qnameLitPre ++ raw ++ Tables.qnameLitPost
+  | .qnameCall raw r =>
+    if cfg.qnameFix then qnameCallee ++ cs!"(" ++ r ++ cs!")"
+    else Tables.qnameLitPre ++ raw ++ Tables.qnameLitPost
   | .opaqueCall _ callee args _ => dotted callee ++ args
-  | .enumRef c m => lastName c.path ++ Tables.enumStrSep ++ m
-  | .call c kws => dotted c.path ++ cs!"(\n" ++ textKw (level + 1) true kws ++ cs!"\n" ++ spaces level ++ cs!")"
-def textItems (level : Nat) : List PyExpr → Str
+  | .enumRef c m => dotted (enumNames cfg c) ++ Tables.enumStrSep ++ m
+  | .call c kws => dotted c.path ++ cs!"(\n" ++ textKw cfg (level + 1) true kws ++ cs!"\n" ++ spaces level ++ cs!")"
+def textItems (cfg : Cfg) (level : Nat) : List PyExpr → Str
   | [] => []
-  | x :: xs => spaces level ++ x.text level ++ cs!",\n" ++ textItems level xs
-def textKV (level : Nat) : List (PyExpr × PyExpr) → Str
+  | x :: xs => spaces level ++ x.text cfg level ++ cs!",\n" ++ textItems cfg level xs
+def textKV (cfg : Cfg) (level : Nat) : List (PyExpr × PyExpr) → Str
   | [] => []
-  | (k, v) :: r => spaces level ++ k.text level ++ cs!": " ++ v.text level ++ cs!",\n" ++ textKV level r
-def textKw (level : Nat) (first : Bool) : List (Str × PyExpr) → Str
+  | (k, v) :: r => spaces level ++ k.text cfg level ++ cs!": " ++ v.text cfg level ++ cs!",\n" ++ textKV cfg level r
+def textKw (cfg : Cfg) (level : Nat) (first : Bool) : List (Str × PyExpr) → Str
   | [] => []
   | (n, e) :: r =>
-    (if first then [] else cs!",\n") ++ spaces level ++ n ++ cs!"=" ++ e.text level ++ textKw level false r
+    (if first then [] else cs!",\n") ++ spaces level ++ n ++ cs!"=" ++ e.text cfg level ++ textKw cfg level false r
 end
 
 mutual
@@ -268,7 +294,7 @@ def PyExpr.types : PyExpr → List ClsRef
   | .arr isT xs => (if isT then tupleT else listT) :: typesL xs
   | .dict kvs => dictT :: typesKV kvs
   | .floatCall _ _ => [floatT]
-  | .qnameCall _ => [qnameT]
+  | .qnameCall _ _ => [qnameT]
   | .opaqueCall c _ _ _ => [c]
   | .enumRef c _ => [c]
   | .call c kws => c :: typesKw kws
@@ -283,32 +309,26 @@ def typesKw : List (Str × PyExpr) → List ClsRef
   | (_, e) :: r => e.types ++ typesKw r
 end
 
-/-- the name of the callable in `float("…")` / `QName("…")`, read off the
-format the code uses -/
-def calleeOf (pre : Str) : Str := pre.takeWhile (· ≠ '(')
-def floatCallee : Str := calleeOf Tables.floatLitPre
-def qnameCallee : Str := calleeOf Tables.qnameLitPre
-
 mutual
 /-- the class references the source makes: (dotted name as written, class meant) -/
-def PyExpr.refs : PyExpr → List (List Str × ClsRef)
+def PyExpr.refs (cfg : Cfg) : PyExpr → List (List Str × ClsRef)
   | .lit _ _ _ => []
-  | .arr _ xs => refsL xs
-  | .dict kvs => refsKV kvs
+  | .arr _ xs => refsL cfg xs
+  | .dict kvs => refsKV cfg kvs
   | .floatCall _ _ => [([floatCallee], floatT)]
-  | .qnameCall _ => [([qnameCallee], qnameT)]
+  | .qnameCall _ _ => [([qnameCallee], qnameT)]
   | .opaqueCall c callee _ _ => [(callee, c)]
-  | .enumRef c _ => [(enumNames c, c)]
-  | .call c kws => (c.path, c) :: refsKw kws
-def refsL : List PyExpr → List (List Str × ClsRef)
+  | .enumRef c _ => [(enumNames cfg c, c)]
+  | .call c kws => (c.path, c) :: refsKw cfg kws
+def refsL (cfg : Cfg) : List PyExpr → List (List Str × ClsRef)
   | [] => []
-  | x :: xs => x.refs ++ refsL xs
-def refsKV : List (PyExpr × PyExpr) → List (List Str × ClsRef)
+  | x :: xs => x.refs cfg ++ refsL cfg xs
+def refsKV (cfg : Cfg) : List (PyExpr × PyExpr) → List (List Str × ClsRef)
   | [] => []
-  | (k, v) :: r => k.refs ++ v.refs ++ refsKV r
-def refsKw : List (Str × PyExpr) → List (List Str × ClsRef)
+  | (k, v) :: r => k.refs cfg ++ v.refs cfg ++ refsKV cfg r
+def refsKw (cfg : Cfg) : List (Str × PyExpr) → List (List Str × ClsRef)
   | [] => []
-  | (_, e) :: r => e.refs ++ refsKw r
+  | (_, e) :: r => e.refs cfg ++ refsKw cfg r
 end
 
 /-! ## `repr_object` -/
@@ -335,7 +355,7 @@ def render (W : World) : Val → PyExpr
   | .float n r => if n.isFin then .lit (.float n r) r floatT else .floatCall n r
   | .str s r => .lit (.str s r) r strT
   | .bytes c r => .lit (.bytes bytesT r) r c
-  | .qname t => .qnameCall t
+  | .qname t r => .qnameCall t r
   | .opaque c callee args n => .opaqueCall c callee args n
   | .enum c m => .enumRef c m
   | .list xs => .arr false (renderL W xs)
@@ -479,35 +499,36 @@ def kwNamesOK (fs : List FieldSpec) (kw : List (Str × Val)) : Bool :=
   kw.all fun p => fs.any fun f => f.init && f.name == p.1
 
 mutual
-def eval (W : World) (env : Env) : PyExpr → Except Err Val
+def eval (cfg : Cfg) (W : World) (env : Env) : PyExpr → Except Err Val
   | .lit v _ _ => .ok v
   | .arr isT xs =>
-    match evalL W env xs with
+    match evalL cfg W env xs with
     | .error e => .error e
-    | .ok vs => .ok (if isT && vs.isEmpty then .tuple [] else .list vs)
+    | .ok vs => .ok (if isT && (cfg.tupleFix || vs.isEmpty) then .tuple vs else .list vs)
   | .dict kvs =>
-    match evalKV W env kvs with
+    match evalKV cfg W env kvs with
     | .error e => .error e
     | .ok ps => if ps.all (fun p => hashable p.1) then .ok (.dict ps) else .error .typeError
   | .floatCall n a =>
     match resolve W env [floatCallee] with
     | .error e => .error e
     | .ok r => if r = floatT then .ok (.float n a) else .error .unmodelled
-  | .qnameCall raw =>
+  | .qnameCall raw rp =>
     match resolve W env [qnameCallee] with
     | .error e => .error e
     | .ok r =>
       if r = qnameT then
-        match decodeDq false raw with
-        | some t => .ok (.qname t)
-        | Option.none => .error .unmodelled
+        if cfg.qnameFix then .ok (.qname raw rp)   -- `repr(text)` evaluates to `text` (trusted, as for `str`)
+        else match decodeDq false raw with
+          | some t => .ok (.qname t rp)
+          | Option.none => .error .unmodelled
       else .error .unmodelled
   | .opaqueCall c callee args n =>
     match resolve W env callee with
     | .error e => .error e
     | .ok r => if r = c then .ok (.opaque c callee args n) else .error .unmodelled
   | .enumRef c m =>
-    match resolve W env (enumNames c) with
+    match resolve W env (enumNames cfg c) with
     | .error e => .error e
     | .ok r =>
       match W.find r with
@@ -521,7 +542,7 @@ def eval (W : World) (env : Env) : PyExpr → Except Err Val
     match resolve W env c.path with
     | .error e => .error e
     | .ok r =>
-      match evalKw W env kws with
+      match evalKw cfg W env kws with
       | .error e => .error e
       | .ok kv =>
         match W.find r with
@@ -533,30 +554,30 @@ def eval (W : World) (env : Env) : PyExpr → Except Err Val
           else .error .typeError
         | some ⟨_, .enum _⟩ => .error .typeError
         | _ => .error .unmodelled
-def evalL (W : World) (env : Env) : List PyExpr → Except Err (List Val)
+def evalL (cfg : Cfg) (W : World) (env : Env) : List PyExpr → Except Err (List Val)
   | [] => .ok []
   | x :: xs =>
-    match eval W env x with
+    match eval cfg W env x with
     | .error e => .error e
-    | .ok v => match evalL W env xs with
+    | .ok v => match evalL cfg W env xs with
       | .error e => .error e
       | .ok vs => .ok (v :: vs)
-def evalKV (W : World) (env : Env) : List (PyExpr × PyExpr) → Except Err (List (Val × Val))
+def evalKV (cfg : Cfg) (W : World) (env : Env) : List (PyExpr × PyExpr) → Except Err (List (Val × Val))
   | [] => .ok []
   | (k, v) :: r =>
-    match eval W env k with
+    match eval cfg W env k with
     | .error e => .error e
-    | .ok k' => match eval W env v with
+    | .ok k' => match eval cfg W env v with
       | .error e => .error e
-      | .ok v' => match evalKV W env r with
+      | .ok v' => match evalKV cfg W env r with
         | .error e => .error e
         | .ok ps => .ok ((k', v') :: ps)
-def evalKw (W : World) (env : Env) : List (Str × PyExpr) → Except Err (List (Str × Val))
+def evalKw (cfg : Cfg) (W : World) (env : Env) : List (Str × PyExpr) → Except Err (List (Str × Val))
   | [] => .ok []
   | (n, e) :: r =>
-    match eval W env e with
+    match eval cfg W env e with
     | .error e => .error e
-    | .ok v => match evalKw W env r with
+    | .ok v => match evalKw cfg W env r with
       | .error e => .error e
       | .ok ps => .ok ((n, v) :: ps)
 end
@@ -564,40 +585,45 @@ end
 mutual
 /-- does compiling the text depend on string-literal decoding this model does
 not cover (then the compile-time `SyntaxError` would pre-empt everything) -/
-def PyExpr.syntaxRisk : PyExpr → Bool
-  | .qnameCall raw => (decodeDq false raw).isNone
-  | .arr _ xs => riskL xs
-  | .dict kvs => riskKV kvs
-  | .call _ kws => riskKw kws
+def PyExpr.syntaxRisk (cfg : Cfg) : PyExpr → Bool
+  | .qnameCall raw _ => !cfg.qnameFix && (decodeDq false raw).isNone
+  | .arr _ xs => riskL cfg xs
+  | .dict kvs => riskKV cfg kvs
+  | .call _ kws => riskKw cfg kws
   | _ => false
-def riskL : List PyExpr → Bool
+def riskL (cfg : Cfg) : List PyExpr → Bool
   | [] => false
-  | x :: xs => x.syntaxRisk || riskL xs
-def riskKV : List (PyExpr × PyExpr) → Bool
+  | x :: xs => x.syntaxRisk cfg || riskL cfg xs
+def riskKV (cfg : Cfg) : List (PyExpr × PyExpr) → Bool
   | [] => false
-  | (k, v) :: r => k.syntaxRisk || v.syntaxRisk || riskKV r
-def riskKw : List (Str × PyExpr) → Bool
+  | (k, v) :: r => k.syntaxRisk cfg || v.syntaxRisk cfg || riskKV cfg r
+def riskKw (cfg : Cfg) : List (Str × PyExpr) → Bool
   | [] => false
-  | (_, e) :: r => e.syntaxRisk || riskKw r
+  | (_, e) :: r => e.syntaxRisk cfg || riskKw cfg r
 end
 
 /-! ## `PycodeSerializer.render(obj, var_name)` and what running it gives -/
 
-def source (W : World) (v : Val) (var : Str) : Str :=
+def sourceC (cfg : Cfg) (W : World) (v : Val) (var : Str) : Str :=
   let e := render W v
-  importsText e.types ++ cs!"\n\n" ++ var ++ cs!" = " ++ e.text 0 ++ cs!"\n"
+  importsText e.types ++ cs!"\n\n" ++ var ++ cs!" = " ++ e.text cfg 0 ++ cs!"\n"
 
 /-- the namespace the expression is evaluated in -/
 def importsEnv (W : World) (v : Val) : Env := imports (render W v).types
 
 /-- `exec(source, {})` then `ns[var]` -/
-def run (W : World) (v : Val) : Except Err Val := eval W (importsEnv W v) (render W v)
+def runC (cfg : Cfg) (W : World) (v : Val) : Except Err Val := eval cfg W (importsEnv W v) (render W v)
 
-def outcome (W : World) (v : Val) : Str :=
-  if (render W v).syntaxRisk then cs!"unmodelled" else
-  match run W v with
+def outcomeC (cfg : Cfg) (W : World) (v : Val) : Str :=
+  if (render W v).syntaxRisk cfg then cs!"unmodelled" else
+  match runC cfg W v with
   | .ok v' => if pyEq v' v then cs!"equal" else cs!"unequal"
   | .error .unmodelled => cs!"unmodelled"
   | .error e => cs!"exc:" ++ e.name
+
+/-- the code under test -/
+abbrev source := sourceC Cfg.asIs
+abbrev run := runC Cfg.asIs
+abbrev outcome := outcomeC Cfg.asIs
 
 end Xs.Code
